@@ -26,6 +26,7 @@ import re
 import stat
 import sys
 import threading
+import time
 
 CH = 16384  # bytes per chunk: larger than the io buffer, so every chunk write is one write(2)
 OLD_MODE = 0o600
@@ -288,6 +289,8 @@ def build_model(c: dict, d: str, hooks: Hooks | None):
                         hooks.effect("WriteChunk", self._vf_t, j)
                         file.write(chunk_bytes(self._vf_t, j))
                         file.flush()
+                    if hooks.worker() != 0:
+                        time.sleep(0.0005 * ((self._vf_t + j) % 3))  # let the other worker interleave
 
         def tobytes(self) -> bytes:
             if hooks is not None:
@@ -383,8 +386,11 @@ def _mark(path: str) -> None:
 def child_main(argv: list) -> int:
     job = json.loads(argv[0])
     c, d = norm_cfg(job["cfg"]), job["dir"]
+    import logging
+
     import onnx_ir as ir
 
+    logging.getLogger("onnx_ir").setLevel(logging.ERROR)
     model, ext = build_model(c, d, None)
     if job.get("premap", True):
         for ten in ext.values():
@@ -398,8 +404,11 @@ def child_main(argv: list) -> int:
     _mark(END_MARK)
     res["tensors"] = tensor_report(c, ext, True)
     res["repo"] = os.path.dirname(os.path.dirname(os.path.abspath(ir.__file__)))
-    sys.stdout.write(json.dumps(res) + "\n")
-    sys.stdout.flush()
+    if job.get("result"):
+        _robust_write(job["result"], res)
+    else:
+        sys.stdout.write(json.dumps(res) + "\n")
+        sys.stdout.flush()
     return 0
 
 
@@ -704,6 +713,341 @@ def parse_strace(log_path: str, c: dict, d: str) -> SysTrace:
 
 def spec_event(ev: dict) -> dict:
     return {"a": ev["a"], "t": ev.get("t", 0), "j": ev.get("j", 0), "w": ev.get("w", 0), "r": ev["r"]}
+
+
+
+
+# ----------------------------------------------------------------------------------------------
+# Python layer: proxies in the module globals of onnx_ir.external_data / onnx_ir._io
+# ----------------------------------------------------------------------------------------------
+class _Proxy:
+    """Stands in for a module object in ANOTHER module's globals; forwards everything else."""
+
+    def __init__(self, real, overrides: dict):
+        object.__setattr__(self, "_real", real)
+        object.__setattr__(self, "_over", overrides)
+
+    def __getattr__(self, name):
+        over = object.__getattribute__(self, "_over")
+        if name in over:
+            return over[name]
+        return getattr(object.__getattribute__(self, "_real"), name)
+
+
+class BindingError(Exception):
+    """An internal name the proxies rely on is gone (machinery failure, never a verdict)."""
+
+
+class PyLayer:
+    """Context manager installing the effect-logging / fault-injecting proxies."""
+
+    def __init__(self, hooks: Hooks):
+        self.h = hooks
+        self._saved = []
+
+    def _set(self, mod, name, value, must_exist=True):
+        if must_exist and not hasattr(mod, name):
+            raise BindingError(f"{mod.__name__}.{name} not found")
+        had = name in vars(mod)
+        self._saved.append((mod, name, vars(mod).get(name), had))
+        setattr(mod, name, value)
+
+    def __enter__(self):
+        import shutil
+        import tempfile
+
+        import onnx
+        import onnx_ir._io as _io
+        import onnx_ir.external_data as ed
+
+        h = self.h
+        for name, real in (("os", os), ("tempfile", tempfile), ("shutil", shutil)):
+            if getattr(ed, name, None) is not real:
+                raise BindingError(f"onnx_ir.external_data.{name} is not the module {name}")
+        if getattr(_io, "onnx", None) is not onnx:
+            raise BindingError("onnx_ir._io.onnx is not the module onnx")
+        for fn in ("_write_external_data", "_check_no_existing_shard_files"):
+            if not hasattr(ed, fn):
+                raise BindingError(f"onnx_ir.external_data.{fn} not found")
+
+        def mkdtemp(*a, **kw):
+            with h.lock:
+                h.effect("MkTmpDir", w=0)
+                return tempfile.mkdtemp(*a, **kw)
+
+        def copymode(src, dst, **kw):
+            with h.lock:
+                h.effect("CopyMode", w=0)
+                return shutil.copymode(src, dst, **kw)
+
+        def replace(src, dst, **kw):
+            with h.lock:
+                h.effect("Replace", w=0)
+                return os.replace(src, dst, **kw)
+
+        def remove(path, **kw):
+            with h.lock:
+                ev = h.effect("RmTmpFile", w=0)
+                try:
+                    return os.remove(path, **kw)
+                except FileNotFoundError:
+                    ev["r"] = "soft"
+                    raise
+
+        def rmdir(path, **kw):
+            with h.lock:
+                h.effect("RmTmpDir", w=0)
+                return os.rmdir(path, **kw)
+
+        def probe_open(path, mode="r", *a, **kw):
+            if mode == "wb":
+                with h.lock:
+                    h.effect("OpenTmp", w=0)
+                    return _ProbeWriter(io.FileIO(path, "wb"), h, "CloseTmp", 0)
+            if mode == "r+b":
+                with h.lock:
+                    w = h.worker()
+                    h.effect("OpenWorker", w=w)
+                    return _ProbeRandom(io.FileIO(path, "r+b"), h, "CloseWorker", w)
+            return open(path, mode, *a, **kw)
+
+        real_check = ed._check_no_existing_shard_files
+
+        def check_exists(paths):
+            with h.lock:
+                h.effect("CheckExists", w=0)
+            return real_check(paths)
+
+        def onnx_save(*a, **kw):
+            with h.lock:
+                h.effect("ModelIO", w=0)
+                return onnx.save(*a, **kw)
+
+        self._set(ed, "os", _Proxy(os, {"replace": replace, "remove": remove, "rmdir": rmdir}))
+        self._set(ed, "tempfile", _Proxy(tempfile, {"mkdtemp": mkdtemp}))
+        self._set(ed, "shutil", _Proxy(shutil, {"copymode": copymode}))
+        self._set(ed, "open", probe_open, must_exist=False)
+        self._set(ed, "_check_no_existing_shard_files", check_exists)
+        self._set(_io, "onnx", _Proxy(onnx, {"save": onnx_save}))
+        return self
+
+    def __exit__(self, *exc):
+        for mod, name, old, had in reversed(self._saved):
+            if had:
+                setattr(mod, name, old)
+            else:
+                try:
+                    delattr(mod, name)
+                except AttributeError:
+                    pass
+        self._saved.clear()
+        return False
+
+
+class _ProbeMixin:
+    def _vf_init(self, h, close_event, w):
+        self._vf_h, self._vf_close, self._vf_w, self._vf_closed = h, close_event, w, False
+
+    def truncate(self, *a):
+        with self._vf_h.lock:
+            self._vf_h.effect("Prealloc", w=0)
+            r = super().truncate(*a)
+            self.flush()
+            return r
+
+    def close(self):
+        if self._vf_closed:
+            return super().close()
+        self._vf_closed = True
+        h = self._vf_h
+        with h.lock:
+            try:
+                h.effect(self._vf_close, w=self._vf_w)
+            except BaseException:
+                try:
+                    super().close()  # a failing close(2) still releases the descriptor
+                except Exception:  # noqa: BLE001
+                    pass
+                raise
+            return super().close()
+
+
+class _ProbeWriter(_ProbeMixin, io.BufferedWriter):
+    def __init__(self, raw, h, close_event, w):
+        io.BufferedWriter.__init__(self, raw)
+        self._vf_init(h, close_event, w)
+
+
+class _ProbeRandom(_ProbeMixin, io.BufferedRandom):
+    def __init__(self, raw, h, close_event, w):
+        io.BufferedRandom.__init__(self, raw)
+        self._vf_init(h, close_event, w)
+
+
+PY_VIS = ["CheckExists", "MkTmpDir", "OpenTmp", "Prealloc", "CloseTmp", "Callback", "WriteChunk", "OpenWorker",
+          "CloseWorker", "ReleaseMap", "CopyMode", "Replace", "RmTmpFile", "RmTmpDir", "Invalidate", "ModelIO"]
+SYS_VIS = ["MkTmpDir", "OpenTmp", "Prealloc", "CloseTmp", "OpenSrc", "CfrFallback", "WriteChunk", "OpenWorker",
+           "CloseWorker", "CopyMode", "Replace", "RmTmpFile", "RmTmpDir", "ModelIO"]
+PRODUCING = {"CheckExists", "MkTmpDir", "OpenTmp", "Prealloc", "CloseTmp", "Callback", "OpenSrc", "WriteChunk",
+             "OpenWorker", "CloseWorker", "CopyMode", "Replace"}
+
+
+def py_run(c: dict, d: str, fault: dict | None, on_kill=None) -> dict:
+    """One save of configuration c in directory d (already prepared) with the Python-layer proxies,
+    in THIS process.  Returns {"events", "out", "exc", "tensors"}; does not return when the fault kills."""
+    import logging
+
+    import onnx_ir as ir
+
+    logging.getLogger("onnx_ir").setLevel(logging.ERROR)
+    hooks = Hooks(fault)
+    hooks.on_kill = on_kill
+    model, ext = build_model(c, d, hooks)
+    for ten in ext.values():
+        ten.numpy()
+        ten._vf_armed = True
+
+    def callback(tensor, info):
+        t = int(tensor.name[1:])
+        with hooks.lock:
+            hooks.effect("Callback", t)
+
+    res = {"out": "ok", "exc": None}
+    with PyLayer(hooks):
+        try:
+            ir.save(model, os.path.join(d, MODEL_NAME), callback=callback, **save_kwargs(c))
+        except BaseException as e:  # noqa: BLE001
+            res = {"out": "raised", "exc": type(e).__name__, "msg": str(e)[:200]}
+    for ten in ext.values():
+        ten._vf_armed = False
+    res["events"] = hooks.events
+    res["fired"] = hooks.fired
+    res["tensors"] = tensor_report(c, ext, True)
+    return res
+
+
+def py_job(job: dict) -> dict:
+    """Fork, run py_run in the child (so that a kill fault, patched module globals and leaked
+    descriptors stay there), collect events + outcome, observe the directory in the parent."""
+    c, d, fault = norm_cfg(job["cfg"]), job["dir"], job.get("fault")
+    prepare_dir(c, d)
+    rpath = d + ".result.json"
+    pid = os.fork()
+    if pid == 0:
+        code = 3
+        try:
+            def on_kill(events):
+                _robust_write(rpath, {"out": "crashed", "events": events, "tensors": {}, "fired": 1})
+
+            res = py_run(c, d, fault, on_kill)
+            _robust_write(rpath, res)
+            code = 0
+        except BindingError as e:
+            _robust_write(rpath, {"binding_error": str(e)})
+            code = 4
+        except BaseException as e:  # noqa: BLE001
+            import traceback
+
+            _robust_write(rpath, {"harness_error": traceback.format_exc()[-1500:]})
+        finally:
+            os._exit(code)
+    _, status = os.waitpid(pid, 0)
+    try:
+        with open(rpath) as f:
+            res = json.load(f)
+    except (OSError, ValueError):
+        res = {"harness_error": f"no result file, wait status {status}"}
+    try:
+        os.unlink(rpath)
+    except OSError:
+        pass
+    res["status"] = status
+    res["obs"] = observe(c, d)
+    res["cfg"] = c
+    res["fault"] = fault
+    res["layer"] = "py"
+    return res
+
+
+def _robust_write(path: str, obj) -> None:
+    data = json.dumps(obj).encode()
+    for _ in range(4):  # an injected errno hits exactly one invocation; try again
+        try:
+            fd = os.open(path, os.O_WRONLY | os.O_CREAT | os.O_TRUNC, 0o644)
+            try:
+                os.write(fd, data)
+            finally:
+                os.close(fd)
+            return
+        except OSError:
+            continue
+
+
+# ----------------------------------------------------------------------------------------------
+# syscall layer runner
+# ----------------------------------------------------------------------------------------------
+def sys_job(job: dict) -> dict:
+    """Run the child under strace (optionally with one injection), parse, observe."""
+    import shutil
+    import subprocess
+
+    c, d = norm_cfg(job["cfg"]), job["dir"]
+    prepare_dir(c, d)
+    log = d + ".strace"
+    rpath = d + ".result.json"
+    inj = job.get("inject")
+    cmd = ["strace", "-f", "-s", "1", "-o", log, "-e", "trace=" + TRACE_SET]
+    if inj:
+        what = f"error={inj['errno']}" if inj["kind"] == "fail" else "signal=SIGKILL"
+        cmd += ["-e", f"inject={inj['sys']}:{what}:when={inj['k']}"]
+    cmd += [sys.executable, "-m", "vfh.faultfs", json.dumps({"cfg": c, "dir": d, "result": rpath})]
+    env = dict(os.environ)
+    env.update(PYTHONHASHSEED="0", PYTHONDONTWRITEBYTECODE="1", OMP_NUM_THREADS="1", OPENBLAS_NUM_THREADS="1",
+               MKL_NUM_THREADS="1")
+    try:
+        p = subprocess.run(cmd, env=env, capture_output=True, text=True, timeout=job.get("timeout", 120), cwd=os.path.dirname(d))
+        rc, err = p.returncode, p.stderr[-800:]
+    except subprocess.TimeoutExpired:
+        rc, err = -999, "timeout"
+    res = {}
+    try:
+        with open(rpath) as f:
+            res = json.load(f)
+    except (OSError, ValueError):
+        res = {}
+    out = {"cfg": c, "inject": inj, "rc": rc, "stderr": err, "res": res, "layer": "sys"}
+    try:
+        tr = parse_strace(log, c, d)
+        out.update(events=tr.events, positions=tr.positions, begin=tr.begin, end=tr.end, injected=tr.injected,
+                   killed_in=tr.killed_in)
+    except OSError as e:
+        out.update(events=[], positions=[], begin=False, end=False, injected=0, killed_in=None, parse_error=str(e))
+    out["obs"] = observe(c, d)
+    if not job.get("keep"):
+        shutil.rmtree(d, ignore_errors=True)
+        for x in (log, rpath):
+            try:
+                os.unlink(x)
+            except OSError:
+                pass
+    return out
+
+
+def strace_available() -> tuple:
+    import shutil
+    import subprocess
+
+    exe = shutil.which("strace")
+    if not exe:
+        return False, "strace not installed"
+    try:
+        p = subprocess.run([exe, "-o", "/dev/null", "-e", "trace=mkdir", "-e", "inject=mkdir:error=EIO:when=1",
+                            "/bin/mkdir", "/proc/self/vf-probe"], capture_output=True, text=True, timeout=20)
+    except (OSError, subprocess.TimeoutExpired) as e:
+        return False, f"strace failed to run: {e}"
+    if "Input/output error" not in p.stderr:
+        return False, "strace could not attach/inject: " + p.stderr[-200:]
+    return True, exe
 
 
 if __name__ == "__main__":
